@@ -10,11 +10,9 @@ FORCE = (-2, 1, 1, 0, 0, 0, 0)
 
 
 def unique_meaning(symbol, dims):
-    ms = [m for m in S.meanings(symbol) if m.dims == tuple(dims)]
-    keys = {(m.mag, m.pi) for m in ms}
-    if len(keys) != 1:
-        return None
-    return ms[0]
+    # the symbol's magnitude; when the symbol's own dimensions differ from the declared ones (C06's question) the
+    # magnitude is still compared with the product of base units raised to the *declared* exponents, as C07 states
+    return dumpbase.choose_meaning(symbol, dims)[0]
 
 
 def run(tier, seed):
@@ -130,7 +128,8 @@ def run(tier, seed):
             if m.mag != want or m.pi != 0:
                 V.add_violation(key + "|not-coherent",
                                 {"consistent_unit": e["id"], "symbol": e["abbreviation"], "magnitude": str(m.mag),
-                                 "pi_power": m.pi, "product_of_base_units": str(want), "ratio": str(m.mag / want)})
+                                 "pi_power": m.pi, "product_of_base_units": str(want), "ratio": str(m.mag / want),
+                                 "declared_exponents": list(dims), "exponents_of_the_symbol": list(m.dims)})
             if len(samples) < 6 and sum(abs(x) for x in dims) > 2 and s["value"] >= 2:
                 samples.append({"system": s["id"], "unit_type": u["name"], "consistent_unit": e["id"],
                                 "symbol": e["abbreviation"], "exact_SI_magnitude": str(m.mag),
